@@ -204,6 +204,7 @@ func Run(ctx context.Context, stmt ast.Stmt, setup Setup) (obs Obs, id int64) {
 		add(l)
 		return nil
 	})
+	e.Define("pp", func(x interface{}) interface{} { add(x); panic("host function panics") })
 	e.Define("pa", func(ptr interface{}) interface{} { add(int64(77)); return nil })
 	e.Define("harr", [3]int64{1, 2, 3}) // an unaddressable Go array: slicing it panics inside reflect
 	if setup != nil {
@@ -231,7 +232,7 @@ func Run(ctx context.Context, stmt ast.Stmt, setup Setup) (obs Obs, id int64) {
 	obs.Log = log
 	mu.Unlock()
 	for _, s := range e.GetValueSymbols() {
-		if s == "p" || s == "pv" || s == "pn" || s == "pa" || s == "harr" {
+		if s == "p" || s == "pv" || s == "pn" || s == "pa" || s == "pp" || s == "harr" {
 			continue
 		}
 		v, gerr := e.Get(s)
